@@ -79,6 +79,10 @@ CHECKS = {
          'Part A: every path text of <= 3 (thorough 4) segments over a hostile segment alphabet x 16 import spellings x 3 importers (recording fs.FS, naive joining fs.FS, local importer on a real tree) with sentinel modules planted at every reachable outside location. Part B: every sequence of <= 3 (thorough 4) import statements over a 15-letter alphabet on a module tree with shared names, a diamond and a failing module; each sequence is executed on the real implementation with both importers and every probe is compared with a reference model (module bodies run exactly once, aliases share state, globals are separate).',
          'Trusted: the reference model of module state in internal/c14; import cycles are not generated.',
          'E4 histbfs + E5 enum', '4 C14'),
+ 'C12': ('exploration', 'bounded-exhaustive enumeration of every OS-touching function/method (discovered from the live modules) x argument tuples x execution contexts x ways of supplying the OS, against a recording OS; real-process effects checked after every case',
+         'Every function of the os, filepath and fmt modules, the OS-touching builtins and every file-object method (80 discovered names; an unknown name is an engine error) x 168 argument tuples whose paths and variable names carry a marker x 12 execution contexts (thorough 252: spawn, go, clone, imported module, callbacks, risor.Call, composed chains) x OS supplied by option / context / both. Oracle: the recording OS logged exactly the expected calls and the script saw its answers; cwd, environment, temp dir, / and real stdio of the worker are untouched; a static scan of the anchored files finds no direct os/syscall use; thorough: no syscall argument under strace carries the marker.',
+         'Trusted: the call templates (expected OS-call logs) in internal/c12/cases.go. exec, network modules and the importer\'s own file reads are exempt by the statement; os.exit(non-zero) inside go-statement contexts is excluded (it would block the harness).',
+         'E5 enum + E7 crashbox', '4 C12'),
  'C13': ('exploration', 'bounded-exhaustive enumeration of path strings x operations x layouts against a component-wise containment oracle',
          'Every path string over the 7-segment alphabet up to 5 (quick) / 6 (thorough) segments, absolute/relative, with/without trailing separator, is pushed through os.ResolvePath, through every localfs operation on a real temp tree with sentinels outside the base, and through every VirtualOS operation over 7 mount tables x 4 working directories with recording filesystems; the oracle is an independent component-wise prefix computation. Complete within the stated alphabet and length.',
          'Trusted: the oracle in internal/c13 (filepath.Clean + component-wise prefix); effects observed on a real tmpfs tree. Not covered: segments outside the alphabet, host-planted symlinks.',
